@@ -234,6 +234,13 @@ def model(ai, st, bi, ce, args, atys, dty, key):
         if op in ("div_ceil", "next_multiple_of", "pow", "abs_diff", "wrapping_sub", "wrapping_add", "wrapping_mul", "count_ones", "leading_zeros", "trailing_zeros",
                   "to_be_bytes", "to_le_bytes", "from_be_bytes", "from_le_bytes", "checked_mul", "checked_div", "is_power_of_two", "swap_bytes", "to_be", "to_le"):
             return pure(NotImplemented)
+    if p in ("core::ops::range::RangeInclusive::<Idx>::contains", "core::ops::range::Range::<Idx>::contains") and len(args) == 2:
+        r = ai.load(st, a0)
+        x = ai.load(st, args[1])
+        if isinstance(r, tuple) and r and r[0] == "t" and len(r[1]) >= 2 and is_lin(r[1][0]) and is_lin(r[1][1]) and is_lin(x):
+            hi_op = "Le" if "Inclusive" in p else "Lt"
+            return pure(("b", "and", B("Ge", x, r[1][0]), B(hi_op, x, r[1][1])))
+        return pure(NotImplemented)
     if p in ("core::cmp::Ord::min", "core::cmp::Ord::max", "core::cmp::min", "core::cmp::max") and len(args) == 2 and is_lin(a0) and is_lin(args[1]):
         ia, ib = ai.iv(st, a0), ai.iv(st, args[1])
         f = min if p.endswith("min") else max
